@@ -179,4 +179,13 @@ Ltac abstract_trig :=
   | |- context [cos ?t] => let c := fresh "c" in set (c := cos t) in *
   | |- context [sin ?t] => let s := fresh "s" in set (s := sin t) in *
   end.
-Ltac twin_t := cbv zeta; pos_sqrt_hyps; trig_hyps; abstract_trig; twin_core.
+(* half-angle arguments written as  x * c  or  x / c  (x an input, c a constant) are brought to the form  c * x  that the
+   other copy uses, so that `abstract_trig` names the same atom on both sides *)
+Ltac norm_trig_args :=
+  repeat match goal with
+  | |- context [cos (?x * ?c)] => is_var x; tryif is_var c then fail else replace (x * c) with (c * x) by ring
+  | |- context [sin (?x * ?c)] => is_var x; tryif is_var c then fail else replace (x * c) with (c * x) by ring
+  | |- context [cos (?x / ?c)] => is_var x; tryif is_var c then fail else replace (x / c) with (1 / c * x) by (field; lra)
+  | |- context [sin (?x / ?c)] => is_var x; tryif is_var c then fail else replace (x / c) with (1 / c * x) by (field; lra)
+  end.
+Ltac twin_t := cbv zeta; pos_sqrt_hyps; norm_trig_args; trig_hyps; abstract_trig; twin_core.
